@@ -165,7 +165,7 @@ inline bool World::exec_op(Proc &p, Step &st, std::string &out, long *aout, long
         if (acc == O_WRONLY && (flags & O_NONBLOCK) && i->fifo->readers <= 0) { if (i->fifo->writers <= 0) i->fifo.reset(); return FAIL(ENXIO); }
         o = k.new_ofd(); Ofd *f = k.ofds[o].get(); f->ino = n; f->pipe = i->fifo;
         if (acc == O_WRONLY) { f->kind = K_PIPE_W; i->fifo->writers++; i->fifo->wcounter++; }
-        else if (acc == O_RDONLY) { f->kind = K_PIPE_R; i->fifo->readers++; f->wcounter_at_open = i->fifo->wcounter; }
+        else if (acc == O_RDONLY) { f->kind = K_PIPE_R; i->fifo->readers++; f->wcounter_at_open = i->fifo->writers > 0 ? 0 : i->fifo->wcounter; }   // Linux fifo_open: the hang-up is suppressed "until we have seen a writer" only if there was none at open time (found by vk/scn_conf depth 6)
         else { f->kind = K_PIPE_R; i->fifo->readers++; i->fifo->writers++; i->fifo->wcounter++; f->wcounter_at_open = i->fifo->wcounter; }   // O_RDWR: not used by the programs
       } else {
         if (flags & O_TRUNC) { i->data.clear(); i->mtime = k.clock; }
@@ -246,7 +246,7 @@ inline bool World::exec_op(Proc &p, Step &st, std::string &out, long *aout, long
       Ofd *o = O(p, r.a[0]); if (!o) return FAIL(EBADF);
       st.kind = o->kind; st.ino = o->ino;
       if (o->kind != K_FILE) return FAIL(EINVAL);
-      if (r.a[1] < 0) return FAIL(EINVAL);
+      if (r.a[1] < 0 || (o->flags & O_ACCMODE) == O_RDONLY) return FAIL(EINVAL);
       Inode *i = k.I(o->ino); i->data.resize(r.a[1], '\0'); i->mtime = k.clock; return false;
     }
     case VK_FSTAT: {
@@ -342,11 +342,11 @@ inline bool World::exec_op(Proc &p, Step &st, std::string &out, long *aout, long
     case VK_FLOCK: {
       auto it = p.fds.find(r.a[0]); if (it == p.fds.end()) return FAIL(EBADF);
       Ofd *o = k.ofds[it->second.ofd].get(); int op = r.a[1]; st.ino = o->ino;
-      if (!o->ino) return FAIL(EINVAL);
-      if (op & LOCK_UN) { auto h = k.lock_holder.find(o->ino); if (h != k.lock_holder.end() && h->second == it->second.ofd) k.lock_holder.erase(h); o->locked = false; return false; }
-      auto h = k.lock_holder.find(o->ino);
+      int key = Kernel::lock_key(o); if (!key) return false;   // nothing else can name the object
+      if (op & LOCK_UN) { auto h = k.lock_holder.find(key); if (h != k.lock_holder.end() && h->second == it->second.ofd) k.lock_holder.erase(h); o->locked = false; return false; }
+      auto h = k.lock_holder.find(key);
       if (h != k.lock_holder.end() && h->second != it->second.ofd) return FAIL(EWOULDBLOCK);
-      k.lock_holder[o->ino] = it->second.ofd; o->locked = true; return false;
+      k.lock_holder[key] = it->second.ofd; o->locked = true; return false;
     }
     case VK_SELECT: {
       int cnt = 0; std::string res;
